@@ -293,3 +293,20 @@ Example quant_examples :
   quant 1 4591870180066957722%N = Ok 1 /\ quant 1 4598175219545276416%N = Ok 3 /\
   quant 1 13821547256400052224%N = Ok (-3).
 Proof. vm_compute. repeat split; reflexivity. Qed.
+
+(* bounding box wider than 2^63: every ordinate fits int64, max - min does not. The stored delta
+   wraps (it is negative on the wire), and the reader's min + delta wraps back: the header-only
+   reader still returns the true envelope (an instance of twkb_bbox_header, by computation) *)
+Example bbox_wrapped_delta :
+  let o := {| o_pxy := 7; o_pz := None; o_pm := None; o_size := false; o_bbox := true;
+              o_close := false; o_ids := [] |} in
+  let g := GMPoint XY [MkPoint XY (Some (v2 (-4600000000000000000) 5)); MkPoint XY (Some (v2 4700000000000000000 6))] in
+  wf_twkb o g = true /\
+  match tmarshal o g with
+  | Ok b => (match tdec b with
+             | Ok (_, i) => i_bbox i = Some [-4600000000000000000; -9146744073709551616; 5; 1]
+             | _ => False end) /\
+            tread_env b = Ok (Some (XY, [(-4600000000000000000, 4700000000000000000); (5, 6)]))
+  | _ => False
+  end.
+Proof. vm_compute. repeat split; reflexivity. Qed.
